@@ -3415,6 +3415,8 @@ void ADFH_Read_Block_Data(const double ID,
     mid = to_HDF_data_type(m_data_type);
   }
   else {
+    H5Dclose(did);
+    H5Gclose(hid);
     set_error(INVALID_DATA_TYPE, err);
     return;
   }
@@ -3602,6 +3604,10 @@ void ADFH_Read_Data(const double ID,
     mid = to_HDF_data_type(m_data_type);
   }
   else {
+    H5Sclose(mspace);
+    H5Sclose(dspace);
+    H5Dclose(did);
+    H5Gclose(hid);
     set_error(INVALID_DATA_TYPE, err);
     return;
   }
@@ -3659,6 +3665,8 @@ void ADFH_Read_All_Data(const double  id,
       mid = to_HDF_data_type(m_data_type);
     }
     else {
+      H5Dclose(did);
+      H5Gclose(hid);
       set_error(INVALID_DATA_TYPE, err);
       return;
     }
